@@ -319,7 +319,13 @@ def observe(cfg, want):
         # beyond what can be lifted; the clause holds for any dt and RHS)
         dte = Fr(1, 10) if dec(cfg["dt"]) in (Fr(1, 10), Fr(1000)) else Fr(1)
         obs["dt_explicit"] = enc(dte)
+        rhs0 = np.array(rhs, copy=True)
         vex = P.solveExplicitPDE(vin, float(dte), rhs)
+        obs["flags"]["explicit_rhs_untouched"] = bool(np.array_equal(np.asarray(rhs), rhs0))
+        # a second call with the very same objects returns the very same numbers
+        vex2 = P.solveExplicitPDE(vin, float(dte), rhs)
+        obs["flags"]["explicit_repeat_same"] = bool(np.asarray(vex2._value).tobytes() == np.asarray(vex._value).tobytes())
+        rhs = rhs0
         obs["flags"]["explicit_input_untouched"] = bool(snapshot(vin) == snap)
         obs["flags"]["explicit_new_object"] = bool(vex is not vin and not np.shares_memory(vex._value, vin._value))
         obs["in_explicit"] = lift.lift_array(np.asarray(vin._value))[0]
